@@ -74,6 +74,10 @@ class C03(PropBase):
             out.append(self.gen_inexact(rng))
         for _ in range(per):
             out.append(self.gen_far_dates(rng))
+        for _ in range(1 if quick else 6):
+            n = rng.choice([2051, 2049, 1025, 4099])
+            txns = common.gen_large_journal(rng, n)
+            out.append(self.mk(rng, {}, txns, "large:%d" % n, self.pick_names(rng, txns[:20], 0.3)))
         n = 1500 if quick else 40000
         for _ in range(n):
             out.append(self.gen_random(rng))
